@@ -1,8 +1,11 @@
 #!/bin/bash
-# usage: run_seed.sh <seed-name> <PROPERTY-ID>...   apply /verif/seeded/<name>/patch.diff to /repo, run the checks, undo
+# usage: run_seed.sh <seed-name> <PROPERTY-ID>...   apply /verif/seeded/<name>/patch.diff to a scratch copy of /repo's HEAD (outside /repo and
+# /verif, removed afterwards), run the quick checks against it (VERIF_REPO), report
 name="$1"; shift
-cd /repo && git apply /verif/seeded/$name/patch.diff || { echo "patch does not apply"; exit 2; }
+d=$(mktemp -d /tmp/seedrun_XXXXXX)
+trap 'rm -rf "$d"' EXIT
+git -C /repo archive HEAD fickling | tar -x -C "$d" || exit 2
+(cd "$d" && patch -p1 -s < /verif/seeded/$name/patch.diff) || { echo "patch does not apply"; exit 2; }
 for pid in "$@"; do
-  (cd /verif && VERIF_EVIDENCE_DIR=/tmp/seed_evidence VERIF_REPLAY_DIR=/tmp/seed_replays ./check $pid --tier quick | grep -v "^INFO" | cut -c1-260 | tail -4; echo "exit=${PIPESTATUS[0]}")
+  (cd /verif && VERIF_REPO="$d" VERIF_EVIDENCE_DIR="$d/evidence" VERIF_REPLAY_DIR=/tmp/seed_replays ./check $pid --tier quick | grep -v "^INFO\|^NOTE" | cut -c1-260 | tail -4; echo "exit=${PIPESTATUS[0]}")
 done
-cd /repo && git checkout -- . && git status --short | head -3
